@@ -959,10 +959,15 @@ class C12(Monitor):
             ws = [e for e in st.ev if e['k'] == 'w' and e['pkt'] and e['pkt']['type'] in ('PUBLISH', 'PUBREL')]
             fired = [e for e in st.ev if e['k'] == 'fired']
             if pr['clean'] is False:
-                exp = [('PUBREL', r['id']) for r in carried if st.pre_stage.get(id(r)) == 'released'] + [('PUBLISH', r['id']) for r in carried if st.pre_stage.get(id(r)) == 'inflight']
+                # the property fixes the order of the re-sent PUBLISHes (original order); for the PUBRELs it asks only that
+                # every unacknowledged one is re-sent (the client keeps them in the order the PUBRECs arrived)
+                exp_rel = sorted(r['id'] for r in carried if st.pre_stage.get(id(r)) == 'released')
+                exp_pub = [r['id'] for r in carried if st.pre_stage.get(id(r)) == 'inflight']
                 got = [(e['pkt']['type'], e['pkt']['id']) for e in ws if not e.get('first')]
-                if got != exp:
-                    self.flag('resume-set', 'resumption at CONNACK re-sent %s, expected %s (PUBRELs, then PUBLISHes, original order)' % (got[:8], exp[:8]), st)
+                got_rel = sorted(i for t, i in got if t == 'PUBREL')
+                got_pub = [i for t, i in got if t == 'PUBLISH']
+                if got_rel != exp_rel or got_pub != exp_pub:
+                    self.flag('resume-set', 'resumption at CONNACK re-sent %s, expected PUBRELs %s (any order) and PUBLISHes %s (original order)' % (got[:8], exp_rel[:8], exp_pub[:8]), st)
                 for e in ws:
                     if e['pkt']['type'] == 'PUBLISH' and not e.get('first'):
                         rec = e.get('rec')
